@@ -238,6 +238,14 @@ Proof.
   - rewrite R. reflexivity.
 Qed.
 
+(* the model post-processes its result where the generated code has already done so in place *)
+Lemma rel_map {A A' B} (P : A -> B -> Prop) (Q : A' -> B -> Prop) (k : A -> SM.res A') m g :
+  rel P m g -> (forall a b, P a b -> exists a', k a = SM.Ok a' /\ Q a' b) -> rel Q (SM.bind m k) g.
+Proof.
+  intros R I. destruct m; cbn [rel SM.bind] in *; auto.
+  destruct R as [b [E Pb]]. destruct (I a b Pb) as [a' [-> Qa]]. exists b. split; [exact E|exact Qa].
+Qed.
+
 Lemma rel_ok {A B} (P : A -> B -> Prop) a b : P a b -> rel P (SM.Ok a) (Ok b).
 Proof. intros H. exists b. split; [reflexivity|exact H]. Qed.
 
